@@ -9,6 +9,12 @@ messages).  Canonical token format of messages (harness/convin.go prints it):
 
 ```
 ein.rt <msgs> | <msgs>                    decoder(encoder(msgs)); H = effects equal the effects of the original messages
+ein.seq / ein.par / ein.reuse [ k <msgs>* | m·k results (hex lists or -): result j belongs to call j mod k (snapshots at return
+                                          time, then the kept slices re-read after the last call; reuse: the two calls);
+                                          every result is judged like an ein.msgs record of its call
+ein.fields | <Message.field>*             the proto definitions the encoder model was written against (Model.In.protoFields)
+din.seq / din.par [ k ([ n <hex line>*)* J … | 2k <msgs>   result j belongs to batch j mod k; judged like din.lines
+din.ctx <as din.lines> | <msgs> ; (L <hex line> <msgs>)*   the batch read with the outside lines' own meaning (Spec.In.readInboundWith)
 din.rx <name> | <hex pattern text>        the pattern text of the library's compiled regexp object = `Gen.regex_*_src`
 din.match <name> <hex line> | - / M <hex submatch>*   the byte matcher of Model/DecIn.lean = the real regular expression
 
@@ -321,11 +327,8 @@ def branchTagsMsg (m : InMsg) : List String :=
 
 def tagStr (ts : List String) : String := String.join (ts.eraseDups.map (fun t => " B:" ++ t))
 
-def stepEin (args : List String) (impl : String) : String :=
-  match (pList pMsg).run { toks := args } with
-  | none => "ERR bad-record"
-  | some (ms, st) =>
-    let O := mkOracles st.nets [] [] []
+/-- one call of the encoder on `ms`, implementation result `impl` (hex list, `-`, or `panic…`) -/
+def evalEin (O : Oracles) (ms : List InMsg) (impl : String) : String :=
     let model := encInE O ms
     let modelStr := match model with | .ok ls => hexLines ls | .error _ => "panic"
     let tags := tagStr (ms.flatMap branchTagsMsg ++ (if ms.length > 1 then ["multi-msg"] else []))
@@ -350,6 +353,42 @@ def stepEin (args : List String) (impl : String) : String :=
             | some c => s!"H0:masked-{c} B:wiredom"
           else "H1 B:outdom"
         if eq then s!"EQ {h}{tags}" else s!"NE {h} {modelStr}{tags}"
+
+def stepEin (args : List String) (impl : String) : String :=
+  match (pList pMsg).run { toks := args } with
+  | none => "ERR bad-record"
+  | some (ms, st) => evalEin (mkOracles st.nets [] [] []) ms impl
+
+/-- combine the answers of the parts of a multi-call record: `NE` if any part differs, the first `H0` clause (with the
+index of its part), the model output of the first differing part, all branch tags -/
+def combine (tag : String) (answers : List String) : String :=
+  let parts := answers.map (fun a => (a.splitOn " ").filter (· ≠ ""))
+  if parts.any (fun p => p.head? = some "ERR") then "ERR bad-part"
+  else
+    let ne := parts.any (fun p => p.head? = some "NE")
+    let idx := List.range parts.length
+    let h0 := (parts.zip idx).findSome? (fun (p, i) => match p[1]? with
+      | some h => if h.startsWith "H0" then some s!"{h}@part{i}" else none
+      | none => none)
+    let h := h0.getD "H1"
+    let modelOut := (parts.zip idx).findSome? (fun (p, i) =>
+      if p.head? = some "NE" then some (s!"part{i}: " ++ " ".intercalate ((p.drop 2).filter (fun t => !t.startsWith "B:"))) else none)
+    let tags := tagStr (tag :: parts.flatMap (fun p => (p.filter (·.startsWith "B:")).map (fun t => (t.drop 2).toString)))
+    if ne then s!"NE {h} {modelOut.getD ""}{tags}" else s!"EQ {h}{tags}"
+
+/-- `ein.seq` / `ein.par` / `ein.reuse` -/
+def stepEinSeq (tag : String) (args : List String) (impl : String) : String :=
+  match (pList (pList pMsg)).run { toks := args } with
+  | none => "ERR bad-record"
+  | some (lists, st) =>
+    let O := mkOracles st.nets [] [] []
+    let k := lists.length
+    if impl.startsWith "panic" then
+      s!"NE H0:panic - B:{tag}"
+    else
+      let rs := (impl.splitOn " ").filter (· ≠ "")
+      if k = 0 ∨ rs.length = 0 ∨ rs.length % k ≠ 0 then "ERR bad-impl"
+      else combine tag ((rs.zip (List.range rs.length)).map (fun (r, j) => evalEin O (lists.getD (j % k) []) r))
 
 /-! ## C02 -/
 
@@ -394,36 +433,108 @@ def lineTag (O : Oracles) (l : Bytes) : String :=
           | some _ => "register"
           | none => String.ofList (key.map (fun b => Char.ofNat b.toNat))
 
-def stepDin (args : List String) (impl : String) : String :=
-  let p : P (List Bytes × List JEntry) := do
-    let ls ← pList pHex
-    expect "J"
-    let js ← pList pJEntry
-    pure (ls, js)
-  match p.run { toks := args } with
-  | none => "ERR bad-record"
-  | some ((lines, js), _) =>
-    let O := mkOracles []
-      (js.filterMap fun | .st l s => some (l, s) | _ => none)
-      (js.filterMap fun | .arr l ms => some (l, ms) | _ => none)
-      (js.filterMap fun | .net l n => some (l, n) | _ => none)
+def oraclesOfJ (js : List JEntry) : Oracles :=
+  mkOracles []
+    (js.filterMap fun | .st l s => some (l, s) | _ => none)
+    (js.filterMap fun | .arr l ms => some (l, ms) | _ => none)
+    (js.filterMap fun | .net l n => some (l, n) | _ => none)
+
+/-- one call of the decoder on `lines`; `ims` = the implementation's messages; `alone` = what the implementation returned
+for single lines (din.ctx records; empty otherwise) -/
+def evalDin (O : Oracles) (lines : List Bytes) (ims : List (Option InMsg)) (alone : List (Bytes × List (Option InMsg))) : String :=
     let model := decInE O lines
     let modelStr := match model with | .ok ms => sMsgs ms | .error _ => "panic"
     let tags := tagStr (lines.map (lineTag O))
+    let eq := match model with | .ok mm => mm == ims | .error _ => false
+    let aloneEff : Bytes → List Spec.In.Effect := fun l => ((alone.lookup l).getD []).flatMap Spec.In.effectsOfMsgOpt
+    let h :=
+      if ims.any Option.isNone then "H0:nil-message"
+      else if Spec.In.inDomainLines O lines then
+        (if ims.flatMap Spec.In.effectsOfMsgOpt == Spec.In.readInbound O lines then "H1" else "H0:effects-differ")
+      -- a batch with lines outside the grammar's domain: every line keeps the meaning it has alone
+      else if Spec.In.inDomainLinesCtx O lines && lines.all (fun l => !Spec.In.isLoneLine O l || (alone.lookup l).isSome) then
+        (if (alone.any (fun e => e.2.any Option.isNone)) then "H0:nil-message B:ctx"
+         else if ims.flatMap Spec.In.effectsOfMsgOpt == Spec.In.readInboundWith O aloneEff lines then "H1 B:ctx"
+         else "H0:line-context B:ctx")
+      else "H1 B:outdom"
+    if eq then s!"EQ {h}{tags}" else s!"NE {h} {modelStr}{tags}"
+
+def pLinesJ : P (List Bytes × List JEntry) := do
+  let ls ← pList pHex
+  expect "J"
+  let js ← pList pJEntry
+  pure (ls, js)
+
+def implToks (impl : String) : List String := (impl.splitOn " ").filter (· ≠ "")
+
+def stepDin (args : List String) (impl : String) : String :=
+  match pLinesJ.run { toks := args } with
+  | none => "ERR bad-record"
+  | some ((lines, js), _) =>
+    let O := oraclesOfJ js
     if impl.startsWith "panic" then
+      let model := decInE O lines
+      let modelStr := match model with | .ok ms => sMsgs ms | .error _ => "panic"
       let eq := match model with | .error _ => "EQ" | .ok _ => "NE"
-      s!"{eq} H0:panic {modelStr}{tags}"
+      s!"{eq} H0:panic {modelStr}{tagStr (lines.map (lineTag O))}"
     else
-      match (pList pMsgOpt).run { toks := (impl.splitOn " ").filter (· ≠ "") } with
+      match (pList pMsgOpt).run { toks := implToks impl } with
       | none => "ERR bad-impl"
-      | some (ims, _) =>
-        let eq := match model with | .ok mm => mm == ims | .error _ => false
-        let h :=
-          if ims.any Option.isNone then "H0:nil-message"
-          else if !Spec.In.inDomainLines O lines then "H1 B:outdom"
-          else if ims.flatMap Spec.In.effectsOfMsgOpt == Spec.In.readInbound O lines then "H1"
-          else "H0:effects-differ"
-        if eq then s!"EQ {h}{tags}" else s!"NE {h} {modelStr}{tags}"
+      | some (ims, _) => evalDin O lines ims []
+
+/-- a sequence of message lists until the tokens are used up -/
+partial def pManyMsgs : P (List (List (Option InMsg))) := do
+  let s ← get
+  if s.toks.isEmpty then pure []
+  else
+    let a ← pList pMsgOpt
+    let r ← pManyMsgs
+    pure (a :: r)
+
+/-- `din.seq [ k ([ n hex*)* J [ j entry* | 2k <msgs>` -/
+def stepDinSeq (tag : String) (args : List String) (impl : String) : String :=
+  let p : P (List (List Bytes) × List JEntry) := do
+    let bs ← pList (pList pHex)
+    expect "J"
+    let js ← pList pJEntry
+    pure (bs, js)
+  match p.run { toks := args } with
+  | none => "ERR bad-record"
+  | some ((batches, js), _) =>
+    let O := oraclesOfJ js
+    let k := batches.length
+    if impl.startsWith "panic" then s!"NE H0:panic - B:{tag}"
+    else
+      match pManyMsgs.run { toks := implToks impl } with
+      | none => "ERR bad-impl"
+      | some (rs, _) =>
+        if k = 0 ∨ rs.length = 0 ∨ rs.length % k ≠ 0 then "ERR bad-impl"
+        else combine tag ((rs.zip (List.range rs.length)).map (fun (r, j) => evalDin O (batches.getD (j % k) []) r []))
+
+partial def pAlone : P (List (Bytes × List (Option InMsg))) := do
+  let s ← get
+  if s.toks.isEmpty then pure []
+  else
+    expect "L"
+    let l ← pHex
+    let ms ← pList pMsgOpt
+    let r ← pAlone
+    pure ((l, ms) :: r)
+
+/-- `din.ctx <as din.lines> | <msgs> ; (L <hex line> <msgs>)*` -/
+def stepDinCtx (args : List String) (impl : String) : String :=
+  match pLinesJ.run { toks := args } with
+  | none => "ERR bad-record"
+  | some ((lines, js), _) =>
+    let O := oraclesOfJ js
+    if impl.startsWith "panic" then "NE H0:panic - B:ctx"
+    else
+      let ts := implToks impl
+      let main := ts.takeWhile (· ≠ ";")
+      let rest := (ts.dropWhile (· ≠ ";")).drop 1
+      match (pList pMsgOpt).run { toks := main }, pAlone.run { toks := rest } with
+      | some (ims, _), some (alone, _) => evalDin O lines ims alone
+      | _, _ => "ERR bad-impl"
 
 /-! ## round trip (C02 `roundtrip_in` on the implementation) -/
 
@@ -497,9 +608,26 @@ def stepMatch (args : List String) (impl : String) : String :=
     | _, _ => "ERR bad-record"
   | _ => "ERR bad-record"
 
+/-- `ein.fields | <Message.field>*`: the proto definitions are the ones the encoder model was written against -/
+def stepFields (impl : String) : String :=
+  let got := implToks impl
+  let want := Model.In.protoFieldsRead ++ Model.In.protoFieldsOpaque
+  if got.all want.contains && want.all got.contains then "EQ H1 B:proto-fields"
+  else
+    let extra := got.filter (fun f => !want.contains f)
+    let missing := want.filter (fun f => !got.contains f)
+    s!"NE H1 unknown-to-model:{",".intercalate extra} missing-in-proto:{",".intercalate missing} B:proto-fields"
+
 def step (cmd : String) (args : List String) (impl : String) : String :=
   match cmd with
   | "ein.msgs" => stepEin args impl
+  | "ein.seq" => stepEinSeq "seq" args impl
+  | "ein.par" => stepEinSeq "par" args impl
+  | "ein.reuse" => stepEinSeq "reuse" args impl
+  | "ein.fields" => stepFields impl
+  | "din.seq" => stepDinSeq "seq" args impl
+  | "din.par" => stepDinSeq "par" args impl
+  | "din.ctx" => stepDinCtx args impl
   | "ein.rt" => stepRt args impl
   | "din.lines" => stepDin args impl
   | "din.rx" => stepRx args impl
